@@ -159,6 +159,11 @@ def traverse_path_step(obj: Any, segment: str) -> Any:
     if isinstance(obj, dict):
         return obj[segment]
 
+    # Dict-like models are keyed by strings like dicts, never by position:
+    # an all-digit segment is a key, not an index.
+    if isinstance(obj, DictLikeModel):
+        return getattr(obj, segment)
+
     # Attempt list/tuple index
     try:
         idx = int(segment)
@@ -180,6 +185,11 @@ def assign_path_step(obj: Any, segment: str, value: Any) -> None:
     """
     if isinstance(obj, dict):
         obj[segment] = value
+        return
+
+    # Dict-like models: an all-digit segment is a (string) key, not an index
+    if isinstance(obj, DictLikeModel):
+        setattr(obj, segment, value)
         return
 
     # Attempt list/tuple index assignment
